@@ -995,18 +995,6 @@ func riskyWidth(p piece) bool {
 	return hasV && risky && (strings.Contains(p.ctl, "*") || strings.Contains(p.ctl, "[") || strings.Contains(p.ctl, "?") || strings.Contains(p.ctl, "{"))
 }
 
-// hangRisk: after ~:* has moved the cursor before the first argument (slip does not refuse that), ~@{ never
-// ends and its output grows without bound; the abandoned goroutine would exhaust the memory of the run.
-func hangRisk(p piece) bool {
-	all := p.ctl
-	for _, a := range p.args {
-		if a.k == kStr {
-			all += a.s
-		}
-	}
-	return strings.Contains(all, ":*") && strings.Contains(all, "@{")
-}
-
 type caseRec struct {
 	Lisp     string `json:"lisp"`
 	Observed string `json:"observed"`
@@ -1053,10 +1041,6 @@ func Run(ctx *common.Ctx) {
 			ctx.Hist("skipped:v-with-large-integer")
 			return
 		}
-		if hangRisk(p) {
-			ctx.Hist("skipped:backward-move-before-@{")
-			return
-		}
 		src := fmt.Sprintf(`(format nil "%s"%s)`, p.ctl, argForms(p.args))
 		if distinct[src] {
 			return
@@ -1071,8 +1055,8 @@ func Run(ctx *common.Ctx) {
 			return
 		}
 		if o.err == "timeout" {
-			// handed to the model as an observation of its own kind: the known cursor defect (~:* before the first
-			// argument, then ~@{ ) makes the Go loop spin, and the model's loop does the same
+			// handed to the model as an observation of its own kind (none is expected: the cursor cannot leave the
+			// argument list since repo_fixes/C15-15, which is what made ~@{ spin)
 			ctx.Hist("outcome:no-return")
 		}
 		// the three destinations
